@@ -242,6 +242,32 @@ def tiebreakDefault : Nat → ScoreTable → Nat → Except Err (List Slot)
             let m := getD medians p.1 0
             (p.1, setCount p.2 m (getCount p.2 m - cc)))) n
 
+/-- **Majority-judgment tie-break by definition** (Balinski-Laraki): as long as the tied candidates' medians do not
+    separate a group of winners, remove ONE median grade from every candidate and look again.  Same control structure as
+    `_tiebreak_default`, with the removal step fixed to one grade. -/
+def tiebreakOneByOne : Nat → ScoreTable → Nat → Except Err (List Slot)
+  | 0, _, _ => .error (.other "Fuel")
+  | fuel + 1, scores, n =>
+    match scores with
+    | [] => .error .valueError
+    | p0 :: _ =>
+      let mx := (scores.map (fun p => totalCount p.2)).foldl (fun m x => if m < x then x else m) (totalCount p0.2)
+      if mx = 0 then .error .votingSystemError
+      else do
+        let medians ← aggregate .medianLow scores
+        let best := getNBest medians n
+        match firstTie best with
+        | none => pure best
+        | some (i + 1) =>
+          let winners := best.take (i + 1)
+          let wc := Appr.slotCands winners
+          let rest ← tiebreakOneByOne fuel (scores.filter (fun p => !(wc.contains p.1))) (n - (i + 1))
+          pure (winners ++ rest)
+        | some 0 =>
+          tiebreakOneByOne fuel (scores.map (fun p =>
+            let m := getD medians p.1 0
+            (p.1, setCount p.2 m (getCount p.2 m - 1)))) n
+
 /-- `_tiebreak_plus` (cardinal.py L221-240) -/
 def tiebreakPlus (scores : ScoreTable) (n : Nat) : Except Err (List Slot) :=
   match scores with
